@@ -201,6 +201,9 @@ Proof.
   - apply hk_reset_state; regs.
 Qed.
 
+Lemma evaluate_function_keeps_host_regs n a : Keeps host_regs (evaluate_function I sw n a).
+Proof. apply hk_evaluate_function; regs. Qed.
+
 Fixpoint run_story_ops (ops : list story_op) (w : world) : world :=
   match ops with
   | [] => w
